@@ -141,11 +141,24 @@ fn parse_head(buf: &[u8]) -> Result<Option<(String, Vec<(String, String)>, usize
         return Ok(None);
     };
     let head = &buf[..end];
-    let mut lines = head.split(|&b| b == b'\n');
+    // lines are separated by CRLF; a lone CR or LF inside a line is an error
+    let mut lines: Vec<&[u8]> = vec![];
+    let mut start = 0;
+    let mut i = 0;
+    while i + 1 < head.len() {
+        if head[i] == b'\r' && head[i + 1] == b'\n' {
+            lines.push(&head[start..i]);
+            start = i + 2;
+            i += 2;
+        } else {
+            i += 1;
+        }
+    }
+    lines.push(&head[start..]);
+    let mut lines = lines.into_iter();
     let first = lines.next().unwrap_or(b"");
-    let first = first.strip_suffix(b"\r").unwrap_or(first);
-    if first.iter().any(|&b| b == b'\r' || b == 0) {
-        return Err("CR or NUL inside the start line".into());
+    if first.iter().any(|&b| b == b'\r' || b == b'\n' || b == 0) {
+        return Err("CR, LF or NUL inside the start line".into());
     }
     let start_line = String::from_utf8_lossy(first).to_string();
     if start_line.is_empty() {
@@ -153,11 +166,14 @@ fn parse_head(buf: &[u8]) -> Result<Option<(String, Vec<(String, String)>, usize
     }
     let mut headers = vec![];
     for line in lines {
-        let Some(line) = line.strip_suffix(b"\r") else {
-            return Err("header line terminated by a bare LF".into());
-        };
         if line.is_empty() {
             return Err("empty line inside the head".into());
+        }
+        if line.iter().any(|&b| b == b'\n') {
+            return Err("header line terminated by a bare LF".into());
+        }
+        if line.iter().any(|&b| b == b'\r') {
+            return Err("bare CR inside a header line".into());
         }
         if line[0] == b' ' || line[0] == b'\t' {
             return Err("obs-fold (line starting with whitespace)".into());
@@ -170,8 +186,8 @@ fn parse_head(buf: &[u8]) -> Result<Option<(String, Vec<(String, String)>, usize
             return Err(format!("invalid field name {:?}", String::from_utf8_lossy(name)));
         }
         let value = &line[colon + 1..];
-        if value.iter().any(|&b| b == b'\r' || b == b'\n' || b == 0) {
-            return Err("CR, LF or NUL inside a field value".into());
+        if value.iter().any(|&b| b == 0) {
+            return Err("NUL inside a field value".into());
         }
         let value = String::from_utf8_lossy(value).trim_matches(|c| c == ' ' || c == '\t').to_string();
         headers.push((String::from_utf8_lossy(name).to_string(), value));
@@ -202,7 +218,9 @@ fn strict_content_length(values: &[&str]) -> Result<Option<u64>, String> {
 /// A connection being read message by message.
 pub struct H1Conn<R: Read> {
     pub r: R,
+    /// unread bytes are `buf[pos..]` (front-draining a Vec per chunk would be quadratic)
     pub buf: Vec<u8>,
+    pos: usize,
     /// everything received on this connection so far
     pub raw: Vec<u8>,
     pub eof: bool,
@@ -217,7 +235,34 @@ enum Fill {
 
 impl<R: Read> H1Conn<R> {
     pub fn new(r: R) -> Self {
-        H1Conn { r, buf: vec![], raw: vec![], eof: false }
+        H1Conn { r, buf: vec![], pos: 0, raw: vec![], eof: false }
+    }
+
+    fn rest(&self) -> &[u8] {
+        &self.buf[self.pos..]
+    }
+
+    fn take(&mut self, n: usize) -> Vec<u8> {
+        let n = n.min(self.buf.len() - self.pos);
+        let v = self.buf[self.pos..self.pos + n].to_vec();
+        self.pos += n;
+        if self.pos > 1 << 20 && self.pos * 2 > self.buf.len() {
+            self.buf.drain(..self.pos);
+            self.pos = 0;
+        }
+        v
+    }
+
+    fn take_all(&mut self) -> Vec<u8> {
+        let v = self.buf[self.pos..].to_vec();
+        self.buf.clear();
+        self.pos = 0;
+        v
+    }
+
+    /// bytes received and not yet consumed by a message
+    pub fn pending(&self) -> &[u8] {
+        self.rest()
     }
 
     fn fill(&mut self, deadline: Instant) -> Fill {
@@ -256,30 +301,30 @@ impl<R: Read> H1Conn<R> {
     pub fn next_message(&mut self, kind: Kind, deadline: Instant) -> ReadOutcome {
         // ---- head
         let (start_line, headers, head_len) = loop {
-            match parse_head(&self.buf) {
-                Err(why) => return ReadOutcome::Invalid(why, self.buf.clone()),
+            match parse_head(self.rest()) {
+                Err(why) => return ReadOutcome::Invalid(why, self.rest().to_vec()),
                 Ok(Some(h)) => break h,
                 Ok(None) => match self.fill(deadline) {
                     Fill::Got => {}
                     Fill::Eof => {
-                        return if self.buf.is_empty() {
+                        return if self.rest().is_empty() {
                             ReadOutcome::Eof
                         } else {
-                            ReadOutcome::Invalid("connection closed inside a message head".into(), self.buf.clone())
+                            ReadOutcome::Invalid("connection closed inside a message head".into(), self.rest().to_vec())
                         };
                     }
                     Fill::Timeout => {
-                        return if self.buf.is_empty() {
+                        return if self.rest().is_empty() {
                             ReadOutcome::IdleTimeout
                         } else {
-                            ReadOutcome::Invalid("deadline passed inside a message head".into(), self.buf.clone())
+                            ReadOutcome::Invalid("deadline passed inside a message head".into(), self.rest().to_vec())
                         };
                     }
-                    Fill::Reset => return ReadOutcome::Reset(self.buf.clone()),
+                    Fill::Reset => return ReadOutcome::Reset(self.rest().to_vec()),
                 },
             }
         };
-        self.buf.drain(..head_len);
+        self.pos += head_len;
         let mut msg = H1Message {
             start_line,
             headers,
@@ -336,37 +381,37 @@ impl<R: Read> H1Conn<R> {
             Framing::None => {}
             Framing::ContentLength(n) => {
                 let n = n as usize;
-                while self.buf.len() < n {
+                while self.rest().len() < n {
                     match self.fill(deadline) {
                         Fill::Got => {}
                         Fill::Eof | Fill::Reset => {
-                            msg.body = std::mem::take(&mut self.buf);
+                            msg.body = self.take_all();
                             msg.end = End::Truncated(format!("connection ended after {} of {n} body bytes", msg.body.len()));
                             return ReadOutcome::Message(msg);
                         }
                         Fill::Timeout => {
-                            msg.body = std::mem::take(&mut self.buf);
+                            msg.body = self.take_all();
                             msg.end = End::Truncated(format!("deadline passed after {} of {n} body bytes", msg.body.len()));
                             return ReadOutcome::Message(msg);
                         }
                     }
                 }
-                msg.body = self.buf.drain(..n).collect();
+                msg.body = self.take(n);
             }
             Framing::UntilClose => loop {
                 match self.fill(deadline) {
                     Fill::Got => {}
                     Fill::Eof => {
-                        msg.body = std::mem::take(&mut self.buf);
+                        msg.body = self.take_all();
                         break;
                     }
                     Fill::Reset => {
-                        msg.body = std::mem::take(&mut self.buf);
+                        msg.body = self.take_all();
                         msg.end = End::Truncated("connection reset".into());
                         break;
                     }
                     Fill::Timeout => {
-                        msg.body = std::mem::take(&mut self.buf);
+                        msg.body = self.take_all();
                         msg.end = End::Truncated("deadline passed before the connection was closed".into());
                         break;
                     }
@@ -377,7 +422,7 @@ impl<R: Read> H1Conn<R> {
                 loop {
                     // size line
                     let line_end = loop {
-                        if let Some(p) = self.buf.windows(2).position(|w| w == b"\r\n") {
+                        if let Some(p) = self.rest().windows(2).position(|w| w == b"\r\n") {
                             break p;
                         }
                         match self.fill(deadline) {
@@ -395,7 +440,7 @@ impl<R: Read> H1Conn<R> {
                             }
                         }
                     };
-                    let line: Vec<u8> = self.buf.drain(..line_end + 2).collect();
+                    let line: Vec<u8> = self.take(line_end + 2);
                     let line = &line[..line.len() - 2];
                     let size_part = line.split(|&b| b == b';').next().unwrap_or(b"");
                     let size_txt = String::from_utf8_lossy(size_part).to_string();
@@ -406,7 +451,7 @@ impl<R: Read> H1Conn<R> {
                     if size == 0 {
                         // trailers until an empty line
                         loop {
-                            let Some(p) = self.buf.windows(2).position(|w| w == b"\r\n") else {
+                            let Some(p) = self.rest().windows(2).position(|w| w == b"\r\n") else {
                                 match self.fill(deadline) {
                                     Fill::Got => continue,
                                     _ => {
@@ -415,7 +460,7 @@ impl<R: Read> H1Conn<R> {
                                     }
                                 }
                             };
-                            let l: Vec<u8> = self.buf.drain(..p + 2).collect();
+                            let l: Vec<u8> = self.take(p + 2);
                             let l = &l[..l.len() - 2];
                             if l.is_empty() {
                                 break;
@@ -430,21 +475,23 @@ impl<R: Read> H1Conn<R> {
                         }
                         break;
                     }
-                    while self.buf.len() < size + 2 {
+                    while self.rest().len() < size + 2 {
                         match self.fill(deadline) {
                             Fill::Got => {}
                             _ => {
-                                let have = self.buf.len().min(size);
-                                msg.body.extend(self.buf.drain(..have));
-                                self.buf.clear();
+                                let have = self.rest().len().min(size);
+                                let part = self.take(have);
+                                msg.body.extend(part);
+                                let _ = self.take_all();
                                 msg.end = End::Truncated(format!("connection ended inside a chunk after {} body bytes", msg.body.len()));
                                 return ReadOutcome::Message(msg);
                             }
                         }
                     }
-                    msg.body.extend(self.buf.drain(..size));
+                    let part = self.take(size);
+                    msg.body.extend(part);
                     msg.chunk_sizes.push(size);
-                    let crlf: Vec<u8> = self.buf.drain(..2).collect();
+                    let crlf: Vec<u8> = self.take(2);
                     if crlf != b"\r\n" {
                         return ReadOutcome::Invalid("chunk data not followed by CRLF".into(), crlf);
                     }
@@ -596,4 +643,15 @@ pub fn reset(s: TcpStream) {
 pub fn write_all(s: &mut TcpStream, data: &[u8]) -> std::io::Result<()> {
     s.write_all(data)?;
     s.flush()
+}
+
+/// human-readable one-liner for a read outcome (bytes shown as lossy text)
+pub fn describe(o: &ReadOutcome) -> String {
+    match o {
+        ReadOutcome::Message(m) => format!("message {:?} ({} body bytes, end {:?})", m.start_line, m.body.len(), m.end),
+        ReadOutcome::Eof => "connection closed without a byte".into(),
+        ReadOutcome::IdleTimeout => "nothing arrived before the deadline".into(),
+        ReadOutcome::Invalid(why, bytes) => format!("not HTTP/1.1 ({why}): {:?}", crate::engine::truncate(&String::from_utf8_lossy(bytes), 700)),
+        ReadOutcome::Reset(bytes) => format!("connection reset after {} bytes", bytes.len()),
+    }
 }
